@@ -191,6 +191,27 @@ def _rebinds(stmts, name):
 
 _NOT_FUNCS =("numpy.pi", "math.pi", "numpy.e", "math.e", "numpy.inf", "math.inf", "numpy.nan", "math.nan", "numpy.newaxis")
 
+# numpy's functional spellings of the operators on element-wise conditions (boolean arrays)
+_MASK_NOT = {"numpy.logical_not", "numpy.invert", "numpy.bitwise_not", "numpy.bitwise_invert"}
+_MASK_BIN = {"numpy.logical_and": sp.And, "numpy.bitwise_and": sp.And, "numpy.logical_or": sp.Or, "numpy.bitwise_or": sp.Or,
+             "numpy.logical_xor": sp.Xor, "numpy.bitwise_xor": sp.Xor}
+_MASK_CMP = {"numpy.equal": ast.Eq, "numpy.not_equal": ast.NotEq, "numpy.less": ast.Lt, "numpy.less_equal": ast.LtE,
+             "numpy.greater": ast.Gt, "numpy.greater_equal": ast.GtE}
+# numpy functions that write their first argument in place
+_NP_WRITERS = {"numpy.putmask", "numpy.place", "numpy.copyto", "numpy.put", "numpy.put_along_axis", "numpy.fill_diagonal"}
+
+
+def _cond_of(x, ints=False):
+    """the condition a value stands for where an element-wise condition is expected: a mask, a python truth value (broadcast), and
+    (in a comparison with a mask only) the integers 0 and 1, which compare equal to False and True; None for anything else"""
+    if isinstance(x, symx.Mask):
+        return x.cond
+    if isinstance(x, bool):
+        return sp.true if x else sp.false
+    if ints and isinstance(x, (int, sp.Integer)) and x in (0, 1):
+        return sp.true if x == 1 else sp.false
+    return None
+
 
 class SepEnv(symx.Env):
     # ---- names ---------------------------------------------------------------------------------------------------------------
@@ -321,6 +342,76 @@ class SepEnv(symx.Env):
                     return sp.And(v.cond, sp.Symbol("ALL_OTHER_ELEMENTS_%d" % self.se._alls))
         return symx.Env.truth(self, t)
 
+    # ---- element-wise conditions: the spellings of boolean algebra on masks --------------------------------------------------
+    def binop(self, op, a, b, node):
+        if isinstance(op, (ast.BitAnd, ast.BitOr, ast.BitXor)) and (isinstance(a, symx.Mask) or isinstance(b, symx.Mask)):
+            ca, cb = _cond_of(a), _cond_of(b)
+            if ca is not None and cb is not None:
+                return symx.Mask({ast.BitAnd: sp.And, ast.BitOr: sp.Or, ast.BitXor: sp.Xor}[type(op)](ca, cb))
+        return symx.Env.binop(self, op, a, b, node)
+
+    def compare(self, e):
+        # mask == False / mask != True / mask == other_mask (element-wise: the negation, the mask, the equivalence).  The operands
+        # are looked at before the general comparison only when evaluating them twice cannot matter (no call in them).
+        if len(e.ops) == 1 and isinstance(e.ops[0], (ast.Eq, ast.NotEq)) \
+                and not any(isinstance(x, (ast.Call, ast.NamedExpr, ast.Await, ast.Yield, ast.YieldFrom)) for x in ast.walk(e)):
+            a, b = self.ev(e.left), self.ev(e.comparators[0])
+            if isinstance(a, symx.Mask) or isinstance(b, symx.Mask):
+                ca, cb = _cond_of(a, ints=True), _cond_of(b, ints=True)
+                if ca is None or cb is None:
+                    raise symx.Unsupported("symx: comparison of an element-wise condition with %r at %s" % (b if cb is None else a, self.where(e)))
+                r = sp.Xor(ca, cb)
+                return symx.Mask(sp.Not(r) if isinstance(e.ops[0], ast.Eq) else r)
+        return symx.Env.compare(self, e)
+
+    def _mask_call(self, full, c):
+        """(True, value) for the numpy functions that are spellings of an operation on element-wise conditions, (False, None) for any
+        other call: logical_not / invert / bitwise_not, logical_and / _or / _xor and bitwise_*, their .reduce and all / any over a
+        literal sequence of conditions along the first axis, equal / not_equal / less / ... (the comparison operators), and the
+        in-place selections putmask / place / copyto(where=), which are `a[mask] = v`."""
+        args, kws = c.args, {k.arg for k in c.keywords}
+        if full in _MASK_NOT and len(args) == 1 and not kws:
+            m = _cond_of(self.ev(args[0]))
+            return (True, symx.Mask(sp.Not(m))) if m is not None else (False, None)
+        if full in _MASK_BIN and len(args) == 2 and not kws:
+            a, b = self.ev(args[0]), self.ev(args[1])
+            if isinstance(a, symx.Mask) or isinstance(b, symx.Mask):
+                ca, cb = _cond_of(a), _cond_of(b)
+                if ca is not None and cb is not None:
+                    return True, symx.Mask(_MASK_BIN[full](ca, cb))
+            return False, None
+        red = full[:-len(".reduce")] if full.endswith(".reduce") else {"numpy.all": "numpy.logical_and", "numpy.any": "numpy.logical_or"}.get(full)
+        if red in _MASK_BIN and red != "numpy.bitwise_xor" and red != "numpy.logical_xor" and len(args) >= 1 and kws <= {"axis"} \
+                and len(args) + len(kws) <= 2 and isinstance(args[0], (ast.Tuple, ast.List, ast.Call)):
+            # ufunc.reduce reduces along axis 0 by default; all / any reduce everything unless axis=0 is given
+            axis0 = self._axis0(c, 1) if (len(args) + len(kws) == 2) else full.endswith(".reduce")
+            seq = self.ev(args[0]) if axis0 else None
+            if isinstance(seq, (tuple, list)) and len(seq) > 0 and all(isinstance(x, symx.Mask) for x in seq):
+                return True, symx.Mask(_MASK_BIN[red](*[x.cond for x in seq]))
+            return False, None
+        if full in _MASK_CMP and len(args) == 2 and not kws:
+            node = ast.copy_location(ast.Compare(left=args[0], ops=[_MASK_CMP[full]()], comparators=[args[1]]), c)
+            return True, self.compare(node)
+        if full in _NP_WRITERS:
+            done = False
+            if full in ("numpy.putmask", "numpy.place") and len(args) == 3 and not kws:
+                base, m, v = self.ev(args[0]), _cond_of(self.ev(args[1])), self.ev(args[2])
+                # one number for every selected element (a sequence of values is cycled / consumed in order, not aligned)
+                if m is not None and symx._is_expr(base) and symx._is_expr(v) and symx._as_expr(v).is_number:
+                    self.assign(args[0], sp.Piecewise((symx._as_expr(v), m), (symx._as_expr(base), True)), c)
+                    done = True
+            elif full == "numpy.copyto" and len(args) == 2 and kws <= {"where"}:
+                base, v = self.ev(args[0]), self.ev(args[1])
+                m = _cond_of(self.ev(kwarg(c, "where"))) if kws else sp.true
+                if m is not None and symx._is_expr(base) and symx._is_expr(v):
+                    self.assign(args[0], sp.Piecewise((symx._as_expr(v), m), (symx._as_expr(base), True)), c)
+                    done = True
+            if not done:
+                # the call writes its first argument: ignoring it would leave the evaluation with a stale value
+                raise symx.Unsupported("symx: in-place update `%s` at %s" % (norm(c)[:60], self.where(c)))
+            return True, symx.Opaque(full)
+        return False, None
+
     # ---- calls ---------------------------------------------------------------------------------------------------------------
     def _axis0(self, c, pos):
         ax = kwarg(c, "axis") or (c.args[pos] if len(c.args) > pos else None)
@@ -356,6 +447,9 @@ class SepEnv(symx.Env):
             if rec is not None:
                 return rec
         if full.startswith("numpy.") and not starred:
+            handled, r = self._mask_call(full, c)
+            if handled:
+                return r
             if full in ("numpy.nonzero", "numpy.flatnonzero") and len(c.args) == 1 and not c.keywords:
                 m = self.ev(c.args[0])
                 return m if isinstance(m, symx.Mask) else symx.Opaque(full)
@@ -839,6 +933,32 @@ def conditioning_rule(chk, fi, tag, piece, what, v, syms, sub):
            % (what, "coincident" if piece == "chord" else "antipodal", why))
 
 
+def _nnf(c):
+    """the condition in negation normal form: negations are pushed through and / or / xor / implies / if-then-else down to the
+    comparisons, where they are absorbed (not (a != b) is a == b, not (a < b) is a >= b for the real numbers the terms stand for),
+    and nested conjunctions are flattened.  `~((ra1 != ra2) | (dec1 != dec2))`, `logical_not(logical_or(..))` and
+    `(ra1 == ra2) & (dec1 == dec2)` are one condition in this form.  Logical equivalence only: nothing is assumed about the atoms."""
+    if not isinstance(c, sp.Basic) or c in (sp.true, sp.false) or isinstance(c, (sp.Symbol, sp.Rel)):
+        return c
+    try:
+        n = sp.to_nnf(c, simplify=False)
+    except Exception:
+        return c
+    return n
+
+
+def _canon_cond(c):
+    """(c', polarity) with c == c' when the polarity is True and c == not c' when it is False, c' in negation normal form.  A condition
+    whose normal form is a disjunction while its negation is not is stated through its negation, so that a result written with the
+    arms swapped and the test negated (`where(differ, d, 0)` for `where(same, 0, d)`) gives the same decision list."""
+    n = _nnf(c)
+    if isinstance(n, sp.Or):
+        m = _nnf(sp.Not(n))
+        if not isinstance(m, sp.Or):
+            return m, False
+    return n, True
+
+
 def leaves(e, syms):
     """the term as a priority-ordered decision list [(value, path)]: nested Piecewise terms are flattened and a factor that does not
     depend on the inputs (a unit conversion) is pushed into the pieces, so `k*PW((0, c), (v, True))` and `PW((0, c), (k*v, True))` are
@@ -848,11 +968,12 @@ def leaves(e, syms):
     if isinstance(e, sp.Piecewise):
         out, neg = [], ()
         for v, c in e.args:
-            here = neg if c == sp.true else neg + ((c, True),)
-            out += [(lv, here + lp) for lv, lp in leaves(v, syms)]
             if c == sp.true:
+                out += [(lv, neg + lp) for lv, lp in leaves(v, syms)]
                 break
-            neg = neg + ((c, False),)
+            c, pol = _canon_cond(c)
+            out += [(lv, neg + ((c, pol),) + lp) for lv, lp in leaves(v, syms)]
+            neg = neg + ((c, not pol),)
         return out
     if e.has(sp.Piecewise):
         k, rest = e.as_independent(*syms, as_Add=False)
@@ -863,7 +984,7 @@ def leaves(e, syms):
 
 def _pos(c, pol):
     """the condition a path entry stands for, in positive form"""
-    return c if pol else sp.Not(c)
+    return c if pol else _nnf(sp.Not(c))
 
 
 def _implies_identity(c, syms):
@@ -1009,6 +1130,9 @@ def _distinct_pairs_selected(cond, syms, half):
         ("two points of one parallel half a turn apart in longitude (dec2 = dec1, ra2 = ra1 + %s)" % half, {dec2: dec1, ra2: ra1 + half}),
         ("two points of one parallel at mirrored longitudes (dec2 = dec1, ra2 = -ra1)", {dec2: dec1, ra2: -ra1}),
         ("two points of one parallel at supplementary longitudes (dec2 = dec1, ra2 = %s - ra1)" % half, {dec2: dec1, ra2: half - ra1}),
+        # pairs that are never identical (a condition stated as `this coordinate equal and not both equal` holds on these only)
+        ("two points of one meridian whose latitudes differ by 1 (ra2 = ra1, dec2 = dec1 + 1: true separation 1)", {ra2: ra1, dec2: dec1 + 1}),
+        ("two points of one parallel whose longitudes differ by 1 (dec2 = dec1, ra2 = ra1 + 1)", {dec2: dec1, ra2: ra1 + 1}),
     )
     for what, sub in families:
         if _holds(cond, sub):
@@ -1095,7 +1219,9 @@ def _has_priority(zero_leaf, syms):
     ra1, dec1, ra2, dec2 = syms
     i, _, path = zero_leaf
     if len(path) == 1:
-        return i == 0
+        # the path of a leaf lists every condition its selection depends on (the negations of the pieces before it included), so a
+        # path made of the identity condition alone means the piece is selected whenever that condition holds, wherever it is listed
+        return True
     same = {ra2: ra1, dec2: dec1}
     for c, pol in path[:-1]:
         try:
